@@ -22,7 +22,7 @@ PATH_INSTR = {"root", "name", "dotdot", "pathsetcurrent", "PredicatesStart", "Pr
 PROFILE = {
     # property: (families quick, families thorough, faults in MC, replay with faults, random vectors quick/thorough)
     "C01": dict(quick=[1, 2, 3, 4, 5, 6, 7], thorough=[1, 2, 3, 4, 5, 6, 7, 8, 9, 10], mc_faults=0, faults=False, rand=(400, 6000), rand_kind="scalar"),
-    "C02": dict(quick=[11, 12, 14], thorough=[11, 12, 13, 14], mc_faults=0, faults=False, rand=(300, 4000), rand_kind="path"),
+    "C02": dict(quick=[11, 12, 14, 18], thorough=[11, 12, 13, 14, 18], mc_faults=0, faults=False, rand=(300, 4000), rand_kind="path"),
     "C03": dict(quick=[15, 17], thorough=[15, 16, 17], mc_faults=0, faults=False, rand=(300, 4000), rand_kind="ops"),
     "C05": dict(quick=[4, 11, 14], thorough=[4, 6, 11, 12, 13, 14], mc_faults=4, faults=True, rand=(200, 2000), rand_kind="path"),
 }
@@ -164,7 +164,8 @@ def run(ctx):
         elif prop == "C03":
             mine = f["site"] == "compile"
         elif prop == "C05":
-            mine = f["site"] == "end" and f["what"] in ("end:error-identity", "end:value-and-error", "end:stopped-early", "end:no-value", "end:unexpected-error")
+            # every disagreement of a fault-injected run, and the run-outcome rules at the end of any run
+            mine = f.get("failAt", 0) > 0 or (f["site"] == "end" and f["what"] in ("end:error-identity", "end:value-and-error", "end:stopped-early", "end:no-value", "end:unexpected-error"))
         if mine:
             ctx.disagree(sig, f"trace rejected at {f['site']} {f['instr']} {f['fn']} ({f['what']})",
                          dict(kind="trace", failure=f, how="bin/check %s --tier %s; event index 'at' in the recorded trace of run id" % (prop, ctx.tier)))
